@@ -11,8 +11,10 @@ NPROC = int(os.environ.get('VERIF_PROCS', '0')) or min(16, os.cpu_count() or 1)
 
 
 def _init(mode):
+    import sys
     from mc import load
     load.setup(mode)
+    sys.stdout = open(os.devnull, 'w')      # the library prints diagnostics; checkers are captured explicitly
 
 
 def _resolve(name):
